@@ -274,6 +274,10 @@ func (hb HTTPClient) OpenIDConfiguration(ctx context.Context, issuerURL string) 
 	if data, err = io.ReadAll(response.Body); err != nil {
 		return nil, fmt.Errorf("unable to read response: %w", err)
 	}
+	// only the compact serialization: in the JSON serialization jwt.Parse could take the claims from unsigned members
+	if _, err = jws.Parse(data, jws.WithCompact()); err != nil {
+		return nil, fmt.Errorf("unable to parse response: %w", err)
+	}
 	// kid is checked against did resolver
 	token, err := jwt.Parse(data, jwt.WithKeyProvider(hb.KeyProvider()), jwt.WithAcceptableSkew(5*time.Second))
 	if err != nil {
